@@ -199,6 +199,11 @@ local _lua_current_max_time = nil
 -- the timeout cannot be caught by the code being limited.
 local _lua_timed_out = false
 
+-- os.time() value after which the current top-level call is over its limit
+-- (nil while no limit is armed)
+local _lua_deadline = nil
+local _os_time = os.time
+
 -- Arms the time limit.  This is called from Python for the outermost
 -- invocation only and is not visible inside the sandbox.
 local function _lua_set_timeout(timeout)
@@ -209,6 +214,7 @@ local function _lua_set_timeout(timeout)
     end
     _lua_timed_out = false
     local start_time = os.time()
+    _lua_deadline = start_time + _lua_current_max_time
     debug.sethook(
         function()
             if os.time() > start_time + _lua_current_max_time then
@@ -223,6 +229,7 @@ end
 
 local function _lua_clear_timeout_hook()
     debug.sethook()
+    _lua_deadline = nil
 end
 
 -- Wiktionary uses a Module named "debug".  Force it to be loaded by
@@ -305,6 +312,17 @@ end
 
 local function _rethrow_timeout(ok, ...)
     if not ok then
+        -- The hook cannot run at the C-call limit (calling it is what
+        -- overflows there), so code that recurses through pcall in a loop
+        -- only ever fails with "C stack overflow".  A failed protected call
+        -- therefore looks at the clock itself.
+        if
+            not _lua_timed_out
+            and _lua_deadline ~= nil
+            and _os_time() > _lua_deadline
+        then
+            _lua_timed_out = true
+        end
         if _lua_timed_out then
             _orig_error("Lua timeout error", 0)
         end
